@@ -9,6 +9,7 @@ Kani on the real code (bounded where stated):
   RunIgnored::should_run — i.e. the cases a run executes (std::io::_print is replaced by a
   line counter, so the text of the lines is not looked at)."""
 from lib.unit import *
+from units import entry_common as E
 
 DIVAN = "src/divan.rs"
 
@@ -84,21 +85,167 @@ mod verif_c14 {
 """
 
 
+TREE = "src/entry/tree.rs"
+CONFIG = "src/config/mod.rs"
+
+LIST_SPEC = r"""
+// opaque stand-ins for types the walk only passes around
+#[verifier::external_body] pub struct GroupEntry { _p: core::marker::PhantomData<()> }
+#[verifier::external_body] #[derive(Clone, Copy)] pub struct AnyBenchEntry<'a> { _p: core::marker::PhantomData<&'a ()> }
+#[verifier::external_body] pub struct ThreadsList<'a> { _p: core::marker::PhantomData<&'a ()> }
+#[verifier::external_body] pub struct CounterSet { _p: core::marker::PhantomData<()> }
+// the runner: only the two fields the walk reads
+pub struct Divan { pub run_ignored: RunIgnored, pub bench_options: BenchOptions<'static> }
+
+pub assume_specification<T> [core::option::Option::<T>::or] (a: Option<T>, b: Option<T>) -> (r: Option<T>)
+    where T: core::marker::Destruct,
+    ensures r == (match a { Some(x) => Some(x), None => b }),
+;
+
+// the options attached to a tree node (its benchmark's or group's attribute options), uninterpreted
+pub uninterp spec fn opts_of(c: EntryTree) -> Option<BenchOptions<'static>>;
+impl<'a> EntryTree<'a> {
+    #[verifier::external_body]
+    pub fn bench_options(&self) -> (r: Option<&'a BenchOptions>)
+        ensures (r is Some) == (opts_of(*self) is Some), r is Some ==> r->Some_0.ignore == opts_of(*self)->Some_0.ignore,
+    { unimplemented!() }
+}
+
+// ---- what the walk does at ONE level, as a sequence of events
+pub enum Ev { Line(int), Recurse(int, Option<bool>) }     // (index of the child ..)
+
+pub open spec fn own_ignore(c: EntryTree) -> Option<bool> { match opts_of(c) { Some(o) => o.ignore, None => None } }
+// `ignore` is inherited from the nearest enclosing node that sets it
+pub open spec fn passed_down(c: EntryTree, parent: Option<bool>) -> Option<bool> { match own_ignore(c) { Some(b) => Some(b), None => parent } }
+pub open spec fn should_run_spec(ri: RunIgnored, ignored: bool) -> bool {
+    match ri { RunIgnored::No => !ignored, RunIgnored::Yes => true, RunIgnored::Only => ignored }
+}
+// a benchmark is listed iff a run would execute it: run-time option, else its own, else inherited, else false
+pub open spec fn runs(d: Divan, c: EntryTree, parent: Option<bool>) -> bool {
+    let eff = match d.bench_options.ignore { Some(b) => Some(b), None => passed_down(c, parent) };
+    should_run_spec(d.run_ignored, match eff { Some(b) => b, None => false })
+}
+pub open spec fn n_cases(c: EntryTree) -> int {
+    match c { EntryTree::Leaf { args: None, .. } => 1, EntryTree::Leaf { args: Some(a), .. } => a@.len() as int, EntryTree::Parent { .. } => 0 }
+}
+pub open spec fn child_events(d: Divan, c: EntryTree, idx: int, parent: Option<bool>) -> Seq<Ev> {
+    match c {
+        // groups are never skipped themselves: the walk descends with the inherited setting
+        EntryTree::Parent { .. } => seq![Ev::Recurse(idx, passed_down(c, parent))],
+        // one line per case (each runtime argument separately) iff the benchmark would be run
+        EntryTree::Leaf { .. } => if runs(d, c, parent) { Seq::new(n_cases(c) as nat, |k: int| Ev::Line(idx)) } else { Seq::empty() },
+    }
+}
+pub open spec fn level_events(d: Divan, tree: Seq<EntryTree>, parent: Option<bool>, upto: int) -> Seq<Ev>
+    decreases upto,
+{
+    if upto <= 0 { Seq::empty() } else { level_events(d, tree, parent, upto - 1) + child_events(d, tree[upto - 1], upto - 1, parent) }
+}
+"""
+
+PIN_PATH_DECL = "let mut full_path = String::with_capacity(parent_path.len());"
+PIN_PATH_BUILD = """full_path.clear();
+
+            if !parent_path.is_empty() {
+                full_path.push_str(parent_path);
+                full_path.push_str("::");
+            }
+
+            full_path.push_str(child.display_name());"""
+PIN_LINE1 = 'println!("{full_path}: benchmark")'
+PIN_LINE2 = 'println!("{full_path}::{arg}: benchmark")'
+PIN_RECURSE = "self.run_tree_list(children, &full_path, ignore)"
+PIN_CLOSURE = ".and_then(|options| options.ignore)"
+
+
+def list_file(S: Sources):
+    """Divan::run_tree_list, one level of the walk, for EVERY tree (unbounded): the events at this level (lines printed per
+    case, recursive calls with the inherited `ignore`) are exactly those the statement prescribes. The recursive call is
+    replaced by a recorder of its arguments (i.e. it is reasoned about through this same contract: modular treatment of
+    recursion; termination not proved). Path building and the println! texts are pinned and dropped."""
+    from units.loop_common import pin, type_sections
+    dv = S(DIVAN)
+    tr = S(TREE)
+    cf = S(CONFIG)
+    import re
+    secs = [ghost("imports", "use core::time::Duration;", kind="glue")]
+    o = S("src/benchmark/options.rs")
+    secs.append(code_item(o, o.find_item("struct", "BenchOptions"), subst=[(r"Option<Cow<'a, \[usize\]>>", "Option<ThreadsList<'a>>", 1)]))
+    secs.append(code_item(cf, cf.find_item("enum", "RunIgnored"), keep_attrs=("derive",),
+                          subst=[(r"#\[derive\([^\]]*\)\]", "#[derive(Clone, Copy)]", 1)]))
+    secs.append(code_item(tr, tr.find_item("enum", "EntryTree")))
+    secs.append(ghost("C14 spec and stand-ins", LIST_SPEC, kind="trusted"))
+    secs += wrap_impl("impl RunIgnored", [
+        code_fn(cf, cf.find_fn("run_ignored", impl=r"impl RunIgnored\b"), "RunIgnored::run_ignored", ret="r",
+                clauses="ensures r == (self is Yes || self is Only),"),
+        code_fn(cf, cf.find_fn("run_non_ignored", impl=r"impl RunIgnored\b"), "RunIgnored::run_non_ignored", ret="r",
+                clauses="ensures r == (self is Yes || self is No),"),
+        code_fn(cf, cf.find_fn("should_run", impl=r"impl RunIgnored\b"), "RunIgnored::should_run", ret="r", pair=["verif_c15_ignore::ignore_decision"],
+                clauses="ensures r == should_run_spec(self, ignored),"),
+    ])
+    f_si = dv.find_fn("should_ignore", impl=r"impl Divan\b")
+    f_list = dv.find_fn("run_tree_list", impl=r"impl Divan\b")
+    # the walk either carries the inherited `ignore` down (current code) or has no such parameter (the code before
+    # fix 9e0d033); in the latter case nothing is inherited: the spec is instantiated with parent_ignore = None
+    has_parent = "parent_ignore" in f_list.header_text()
+    pin_recurse = PIN_RECURSE if has_parent else "self.run_tree_list(children, &full_path)"
+    rec_event = "Ev::Recurse(ci, ignore)" if has_parent else "Ev::Recurse(ci, None)"
+    subst = [
+        (pin(PIN_PATH_DECL), "", 1),
+        (pin(PIN_PATH_BUILD), "", 1),
+        (pin(PIN_LINE1), "{ proof { log = log.push(Ev::Line(ci)); } }", 1),
+        (pin(PIN_LINE2), "{ proof { log = log.push(Ev::Line(ci)); } }", 1),
+        (pin(pin_recurse), "{ proof { log = log.push(" + rec_event + "); } }", 1),
+        # Verus has no `continue` in for-loops: the loop over the slice is rewritten as an index loop (header only)
+        (r"for\s+child\s+in\s+tree\s*\{", "let mut idx: usize = 0;\n        while idx < tree.len() /*LOOPINV*/ {\n            let child = &tree[idx]; let ghost ci: int = idx as int; idx = idx + 1;", 1),
+        (pin("for arg in args"), "for arg in it2: args", 1),
+    ]
+    subst.append((r"/\*LOOPINV\*/", "\n            invariant 0 <= idx <= tree@.len(), log == level_events(*self, tree@, parent_ignore, idx as int),\n       ", 1))
+    # the closure gets its (obvious) contract, if the code still uses one
+    if re.search(pin(PIN_CLOSURE), f_list.body_text()):
+        subst.append((pin(PIN_CLOSURE), ".and_then(|options: &BenchOptions| -> (r0: Option<bool>) ensures r0 == options.ignore { options.ignore })", 1))
+    sec = code_fn(dv, f_list, "Divan::run_tree_list", pair=["verif_c14::terse_list_matches_run"], subst=subst,
+                  inserts=[(r"let mut idx: usize = 0;", "before", "let ghost mut log: Seq<Ev> = Seq::empty();" + ("" if has_parent else " let ghost parent_ignore: Option<bool> = None;"), 1),
+                           (r"for arg in it2: args", "before", "let ghost log0 = log;", 1)],
+                  loops={1: """
+                      invariant log == log0 + Seq::new(it2.index@ as nat, |k: int| Ev::Line(ci)), 0 <= ci < tree@.len(), idx == ci + 1,
+                                log0 == level_events(*self, tree@, parent_ignore, ci), *child == tree@[ci],
+                                child matches EntryTree::Leaf { args: Some(aa), .. } && aa@ == args@, runs(*self, *child, parent_ignore),
+                  """},
+                  fn_end="proof { assert(log == level_events(*self, tree@, parent_ignore, tree@.len() as int)); }",
+                  clauses="")
+    sec.text = "#[verifier::exec_allows_no_decreases_clause]\n" + sec.text
+    secs += wrap_impl("impl Divan", [
+        code_fn(dv, f_si, "Divan::should_ignore", ret="r", clauses="ensures r == !should_run_spec(self.run_ignored, ignored),"),
+        sec,
+    ])
+    main = VerusFile("c14_list", secs, rlimit=60)
+    import copy
+    csecs = copy.deepcopy(secs)
+    for c in csecs:
+        if c.name == "Divan::run_tree_list":
+            c.text = c.text.replace("tree@.len() as int)); }", "tree@.len() as int)); assert(false); // CANARY list_end\n }")
+    return [main, VerusFile("c14_list_canary", csecs, expect_fail=True, rlimit=60)]
+
+
 def build(S: Sources) -> Unit:
     S(DIVAN)
+    errs = []
+    vfiles = guarded(lambda: list_file(S), errs, [])
     hs = [
         KaniHarness("verif_c14::list_benches_lists", "complete", covers="Divan::list_benches -> run_action(list action)"),
         KaniHarness("verif_c14::terse_list_matches_run", "bounded", bound="one tree: group g { a, b[x, y] }; all 27 x 3 ignore / flag combinations",
-                    covers="Divan::run_tree_list (ignore inheritance, one line per case)"),
+                    covers="Divan::run_tree_list (ignore inheritance, one line per case)", tier="thorough"),
     ]
     return Unit(
         property_id="C14",
-        verus=[],
-        kani=KaniSpec(flags=["--no-memory-safety-checks", "--no-assertion-reach-checks"], injections={DIVAN: KANI}, harnesses=hs,
-                      stubs_note=["Divan::run_action -> recorder (list_benches harness only)", "std::io::_print -> line counter (the printed text is not inspected)"]),
+        build_errors=errs,
+        verus=vfiles,
+        kani=[E.entry_kani("C14", only={"list_never_invokes"}), KaniSpec(flags=["--no-memory-safety-checks", "--no-assertion-reach-checks"], injections={DIVAN: KANI}, harnesses=hs,
+                      stubs_note=["Divan::run_action -> recorder (list_benches harness only)", "std::io::_print -> line counter (the printed text is not inspected)"])],
         undecided_clauses=[
             "the text of the listed lines (`path: benchmark`) and feeding a listed path back with --exact (string formatting and clap parsing are outside both verifiers)",
-            "that the list actions never invoke a benchmarked function: the short-circuit in run_bench_entry before a Bencher is created is read, not proved (run_bench_entry is not under contract)",
+            "that the list actions never invoke a benchmarked function is checked for run_bench_entry with Action::List (bounded harness verif_entry::list_never_invokes); that the terse action returns from run_action before run_tree is read, not proved",
             "agreement with filters: filtering happens in EntryTree::retain before either walk (see C13)",
             "deeper nesting than one group, generic benchmarks",
         ],
